@@ -766,3 +766,176 @@ class ProverRun:
         for c in reversed(coms):
             acc = (acc * sf + monomial(c[2], p)) % P
         return acc
+
+
+# ------------------------------------------------------------------ expression-shape family (C01-c: GraphEvaluator)
+# Trees are the JSON lists understood by engines/symfield/src/exprfam.rs:
+#   leaves ["a",col,rot] ["f",col,rot] ["i",col,rot] ["c",idx] ["k",n] ["q"]
+#   operator overloads ["neg",e] ["add",l,r] ["sub",l,r] ["mul",l,r] ["scale",e,n] ["square",e]
+#   hand-built nodes   ["Negated",e] ["Sum",l,r] ["Product",l,r] ["Scaled",e,n]
+# A family member is a one-gate circuit with M constraints  wrap(E_j, o_j),  o_j an output cell of its own whose
+# honest value is E_j(witness): the constraint holds on the enabled row for ALL values of the free cells.
+EF_UNARY = [("neg",), ("scale", 0), ("scale", 1), ("scale", -1), ("scale", 3)]
+EF_BINARY = ["add", "sub", "mul"]
+EF_RAW = {"neg": "Negated", "add": "Sum", "mul": "Product", "scale": "Scaled"}
+EF_WRAPS = ["E-o", "o-E", "no+E", "n(o-E)", "rawE-o"]
+EF_NADV = 3           # advice columns a, b, c; output columns follow
+
+
+def ef_a(c, r=0):
+    return ["a", c, r]
+
+
+def ef_k(n):
+    return ["k", n]
+
+
+def ef_un(op, e):
+    return [op[0], e] if len(op) == 1 else [op[0], e, op[1]]
+
+
+def ef_key(t):
+    return json.dumps(t, separators=(",", ":"))
+
+
+def ef_show(t):
+    tag = t[0]
+    if tag in ("a", "f", "i"):
+        nm = ("abc"[t[1]] if t[1] < 3 else f"a{t[1]}") if tag == "a" else f"{tag}{t[1] if t[1] else ''}"
+        return nm + (f"@{t[2]}" if t[2] else "")
+    if tag == "k":
+        return str(t[1])
+    if tag == "c":
+        return f"ch{t[1]}"
+    if tag == "q":
+        return "q"
+    if tag == "neg":
+        return f"-{ef_show(t[1])}"
+    if tag == "square":
+        return f"sq({ef_show(t[1])})"
+    if tag in ("add", "sub", "mul"):
+        return f"({ef_show(t[1])}{dict(add='+', sub='-', mul='*')[tag]}{ef_show(t[2])})"
+    if tag == "scale":
+        return f"({ef_show(t[1])}*#{t[2]})"
+    if tag == "Scaled":
+        return f"Scaled[{ef_show(t[1])},{t[2]}]"
+    return f"{tag}[{','.join(ef_show(x) for x in t[1:])}]"
+
+
+def ef_leaves(t, out=None):
+    out = [] if out is None else out
+    if t[0] in ("a", "f", "i", "c", "k", "q"):
+        out.append(t)
+    else:
+        for x in t[1:]:
+            if isinstance(x, list):
+                ef_leaves(x, out)
+    return out
+
+
+def ef_depth(t):
+    if t[0] in ("a", "f", "i", "c", "k", "q"):
+        return 0
+    return 1 + max(ef_depth(x) for x in t[1:] if isinstance(x, list))
+
+
+def ef_map_leaves(t, fn):
+    if t[0] in ("a", "f", "i", "c", "k", "q"):
+        return fn(t)
+    return [t[0]] + [ef_map_leaves(x, fn) if isinstance(x, list) else x for x in t[1:]]
+
+
+def ef_canon(t):
+    """rename the advice columns a,b,c by first occurrence (left to right): the order in which GraphEvaluator meets
+    the queries (hence every Intermediate index and every `<=` decision) is invariant under this renaming"""
+    ren = {}
+
+    def fn(l):
+        if l[0] == "a" and l[1] < EF_NADV:
+            if l[1] not in ren:
+                ren[l[1]] = len(ren)
+            return ["a", ren[l[1]], l[2]]
+        return l
+    return ef_map_leaves(t, fn)
+
+
+def ef_dedupe(trees, canon=True):
+    seen, out = set(), []
+    for t in trees:
+        c = ef_canon(t) if canon else t
+        k = ef_key(c)
+        if k not in seen:
+            seen.add(k)
+            out.append(c)
+    return out
+
+
+def ef_grow(operands, right=None, raw=True, unary=EF_UNARY, binary=EF_BINARY):
+    """one more level: every unary operator on every operand, every binary operator on every ordered pair; with
+    raw=True also the hand-built Sum/Product nodes for pairs with a literal constant operand (the only pairs on
+    which the overloads rewrite), hand-built Negated/Scaled being identical to -e / e*F"""
+    right = operands if right is None else right
+    out = []
+    for e in operands:
+        for op in unary:
+            out.append(ef_un(op, e))
+    for l in operands:
+        for r in right:
+            for op in binary:
+                out.append([op, l, r])
+            if raw and (l[0] == "k" or r[0] == "k"):
+                out.append(["Sum", l, r])
+                out.append(["Sum", l, ["Negated", r]])
+                out.append(["Product", l, r])
+    return out
+
+
+def ef_member(trees, sel="mul", wraps=None, blinded=False, outrot=True):
+    """one-gate circuit holding the trees as separate constraints; returns the member dict for sx prover / real"""
+    wraps = wraps or ["E-o"] * len(trees)
+    leaves = [l for t in trees for l in ef_leaves(t)]
+    plus = any(l[0] in ("a", "f", "i") and l[2] == 1 for l in leaves)
+    k = 4 if (plus or sel == "add") else 3
+    rots = ([0, 1, -1] if k == 4 else [0, -1]) if outrot else [0]
+    chal = any(l[0] == "c" for l in leaves)
+    ninst = 1 + max([l[1] for l in leaves if l[0] == "i"], default=-1)
+    nfix = 1 + max([l[1] for l in leaves if l[0] == "f"], default=0)
+    nout = -(-len(trees) // len(rots))
+    adv = [0] * EF_NADV + [1 if chal else 0] * nout
+    cons = [{"expr": t, "out": ["a", EF_NADV + j // len(rots), rots[j % len(rots)]], "wrap": w}
+            for j, (t, w) in enumerate(zip(trees, wraps))]
+    # the output columns are always blinded: an output column that is identically zero (E folds to 0, nothing else
+    # in the column) would hide a wrong sign of `o` in the prover's numerator
+    shape = {"adv": adv, "unbl": [] if blinded else list(range(EF_NADV)), "nfix": nfix, "ninst": ninst,
+             "chal": [0] if chal else [], "gates": [{"sel": sel, "cons": cons}], "eq": [], "copies": []}
+    return dict(shape=shape, k=k, np=1, nbc=0, lens=[3] * ninst or [0])
+
+
+def ef_sig(members, procs=4):
+    """`sx exprsig` on the members (keygen only), in parallel chunks; list of {"polys","ev"} per member"""
+    from concurrent.futures import ThreadPoolExecutor
+    if not members:
+        return []
+    build()
+    size = max(1, -(-len(members) // procs))
+    chunks = [members[i:i + size] for i in range(0, len(members), size)]
+
+    def one(chunk):
+        f = tempfile.NamedTemporaryFile("w", suffix=".json", delete=False)
+        json.dump([{"shape": m["shape"], "k": m["k"]} for m in chunk], f)
+        f.close()
+        try:
+            return sx("exprsig", shapes=f.name)["members"]
+        finally:
+            os.unlink(f.name)
+    with ThreadPoolExecutor(max_workers=procs) as ex:
+        return [x for part in ex.map(one, chunks) for x in part]
+
+
+# worker entry point for process pools: a part module is loaded under a synthetic module name, so its functions cannot
+# be pickled by reference; the part registers them here before the pool forks and submits `ef_dispatch` instead
+EF_WORKERS = {}
+
+
+def ef_dispatch(name, *args):
+    return EF_WORKERS[name](*args)
